@@ -384,7 +384,8 @@ def job_collapse_glue(stack):
         return o_.get('love_vs_result_surface', 0.0) > 1e-9, 'real radial_solver(solve_for=(tidal, loading)): [k from result[6t+4, -1] - 1, k reported in .love] per type = %r (relative mismatch %r)' % (o_.get('love_rows'), o_.get('love_vs_result_surface'))
 
     def ob(name, conds, key):
-        rp_ = rp_love if key == 'love-extraction' else (lambda md, name=name: (True, 'call-site data flow of cf_radial_solver (transliterated current solver.pyx): %s' % name))
+        rp_ = replay.api_or_witness([SOLVER, COL, 'TidalPy/RadialSolver/love.pyx'], rp_love, 'Love-number extraction reads a different row than the collapse wrote') if key == 'love-extraction' \
+            else (lambda md, name=name: (True, 'call-site data flow of cf_radial_solver (transliterated current solver.pyx): %s' % name))
         results.append(discharge(Obligation('collapse loop [%s]: %s' % (tag, name), z3.And(*conds) if conds else z3.BoolVal(True), [], with_axioms=False, with_dens=False,
                                             replay=rp_, key='glue:%s' % key)))
     ob('runs without leaving declared extents and calls each kernel once per layer and solution type', [z3.BoolVal(not viol), z3.BoolVal(len(rec['surface']) == NT), z3.BoolVal(len(rec['interface']) == NT * (L - 1)),
